@@ -19,7 +19,7 @@ NOT_APPLICABLE = json.load(open(os.path.join(ROOT, "tools", "not_applicable.json
 
 m = {
     "version": 1,
-    "setup_cmd": "/venv/bin/python -m pip install --no-index --find-links /opt/veriftools/wheels hypothesis >/dev/null 2>&1; /venv/bin/python -c 'import hypothesis, hta, pandas; print(hypothesis.__version__)'",
+    "setup_cmd": "/venv/bin/python -m pip install --no-index --find-links /opt/veriftools/wheels hypothesis >/dev/null 2>&1; /venv/bin/python -m pip install --no-index --find-links /opt/veriftools/wheels --target /verif/.deps atheris >/dev/null 2>&1; /venv/bin/python -c 'import hypothesis, hta, pandas; print(hypothesis.__version__)'",
     "hooks": {
         "guard": "HTA_VERIF",
         "enable": "no source hooks are needed: /venv has an editable install of /repo, so every check imports the current working tree; the harness owns hash seeds, worker schedules and environment options from outside",
